@@ -23,6 +23,7 @@ import r_slotmod
 import r_modeflag
 import r_sendrecv
 import r_encadmit
+import r_resdom
 import r_rngprov
 import r_dispatch
 import r_range
@@ -126,6 +127,8 @@ def c05(facts, tier):
         M.check_table(pfm, em, rep, sc, trows)
         nrows += len(trows)
     rep.floor("R-METAFLOW(table)", "switch bookkeeping rows", nrows, 60)
+    # the kernels that drop the last prime: no foreign residue enters the arithmetic of another prime unreduced
+    r_resdom.run(facts, rep, {"src/util/rns.rs"}, floor=6)
     return rep
 
 
@@ -743,7 +746,25 @@ def c13(facts, tier):
     return rep
 
 
+def c10(facts, tier):
+    rep = Report("C10", tier, facts,
+                 "R-RESDOM on the four kernels that divide by the last prime (divide_and_round_q_last(_ntt)_inplace, "
+                 "mod_t_and_divide_q_last(_ntt)_inplace): inside the loop over the remaining primes every read of the last "
+                 "prime's residue slot is a reduction under the loop's prime, a copy guarded by a comparison of the two "
+                 "moduli, or an in-place operation under its own prime (slots decided symbolically); R-RESDOM(operand): "
+                 "every in-place polysmallmod operation of src/util/rns.rs on residue slot s takes the precomputed "
+                 "per-prime operand, modulus and NTT table at index s.",
+                 "every integer specification itself: CRT bijectivity, the error term of fast base conversion, "
+                 "Montgomery / floor / Shenoy-Kumaresan exactness, that the division rounds to nearest, the value modulo t, "
+                 "scale-and-round; the BEHZ converter routines (they iterate with zip adaptors over matrices: no slot "
+                 "arithmetic for the rule to read).")
+    r_resdom.run(facts, rep, {"src/util/rns.rs"}, floor=6)
+    r_resdom.run_operand_index(facts, rep, {"src/util/rns.rs"}, floor=10)
+    return rep
+
+
 CHECKS = {
+    "C10": c10,
     "C01": c01,
     "C09": c09,
     "C02": c02,
